@@ -25,6 +25,9 @@ func init() {
 			{ID: "C14.R5", Text: "absorbed events still advance the position: with dirty=false the writer stores under exactly the same conditions (same rule as C04.R1)", Run: c04r1},
 			{ID: "C14.R6", Text: "nothing but the flag makes a save write: Checkpoint.Save hands the backend exactly the dirty marks (a copy of GetOffsets()#1) and attempts the write only when the save flag is up — absorbed events, which never mark or flag, cannot cause a checkpoint write (same rule as C05.R3)", Run: c05r3},
 			{ID: "C14.R7", Text: "reserved-key events still advance the position: the reserved-key branch of the forwarder calls the position writer exactly once (same rule as C04.R10, absorb part)", Run: absorbMoves},
+			{ID: "C14.R8", Text: "a reserved-key event reaches the stream as the document event it is: no event wrapper is built outside the handler of its kind, so it cannot be turned into a dirtying seqno-advanced event before the prefix test (same rule as C03.R4)", Run: c03r4},
+			{ID: "C14.R9", Text: "a save clears every mark it wrote: the dirty set is cleared as a whole, after and only under err==nil of the store call — a position moved by a reserved-key event during the save cannot keep its vBucket flagged (same rule as C05.R4)", Run: c05r4},
+			{ID: "C14.R10", Text: "group names are judged as configured: defaulting never rewrites a configured group name, so the separator check sees what the operator wrote (same rule as C17.R1)", Run: c17r1},
 			{ID: "C14.R4", Text: "getCheckpointID: result = Prefix + groupName + const + Itoa(vbID); panics ⇔ groupName contains '.'", Run: c14r4},
 		},
 	})
